@@ -21,8 +21,9 @@ func init() {
 	})
 }
 
-func c18prov(p *Prog, r *Report) {
-	const rule = "C18.prov"
+func c18prov(p *Prog, r *Report) { timestampRule(p, r, "C18.prov") }
+
+func timestampRule(p *Prog, r *Report, rule string) {
 	r.Rule(rule, 3, "timestamp provenance: NewBlockFromFrame passes frame.Timestamp; GetFrame stores Median(timestamps) with timestamps <- GetEvent(fw).Timestamp() for fw in GetRound(roundReceived).FamousWitnesses()")
 	gf := p.Func(HG, "Hashgraph", "GetFrame")
 	if gf == nil {
